@@ -172,6 +172,10 @@ func PESHeader(packet *Packet) ([]byte, error) {
 // Header Returns a slice containing the Packer Header.
 func Header(packet *Packet) []byte {
 	start := payloadStart(packet)
+	if start > len(packet) {
+		// adaptation_field_length points beyond the packet
+		start = len(packet)
+	}
 	return packet[:start]
 }
 
